@@ -27,6 +27,7 @@ type Recorder struct {
 	knownHits map[string]string
 	known     []KnownFinding
 	excluded  int
+	tripped   string
 }
 
 type Violation struct {
@@ -159,7 +160,54 @@ func (r *Recorder) Fail(prop, sig, detail string, c interface{}) (known bool) {
 		return true
 	}
 	r.pending = &Violation{Property: prop, Signature: sig, Detail: detail, Case: c, Shard: shardNo(), Test: r.Test}
+	if r.tripped == "" {
+		// the first failure is written out at once: should the process be stopped
+		// while rapid is still re-running the case (slow system tests), the
+		// violation is not lost; Flush rewrites the record with the final case
+		r.tripped = fmt.Sprintf("VIOLATION %s %s: %s", prop, sig, detail)
+		r.writePending()
+	}
 	return false
+}
+
+// Tripped reports an earlier violation of this process when re-running cases is
+// pointless (VERIF_NOSHRINK=1: tests whose cases take a minute): the caller
+// fails the case at once with the same message, so rapid finishes quickly and
+// the first failing case stays the reported one.
+func (r *Recorder) Tripped() (string, bool) {
+	if os.Getenv("VERIF_NOSHRINK") == "" {
+		return "", false
+	}
+	r.mu.Lock()
+	defer r.mu.Unlock()
+	return r.tripped, r.tripped != ""
+}
+
+// writePending writes the replay file and the violation record (replacing an earlier record of this shard).
+func (r *Recorder) writePending() {
+	out := os.Getenv("VERIF_OUT")
+	if out == "" || r.pending == nil {
+		return
+	}
+	v := r.pending
+	rd := os.Getenv("VERIF_REPLAY_DIR")
+	if rd == "" {
+		rd = out
+	}
+	_ = os.MkdirAll(rd, 0755)
+	name := fmt.Sprintf("%s-%s-%s.json", v.Property, r.Test, hashOf(v.Case))
+	rp := filepath.Join(rd, name)
+	wrapped := map[string]interface{}{"property": v.Property, "test": r.Test, "signature": v.Signature,
+		"detail": v.Detail, "case": v.Case}
+	cb, _ := json.MarshalIndent(wrapped, "", " ")
+	if os.Getenv("VERIF_REPLAY") == "" {
+		_ = os.WriteFile(rp, cb, 0644)
+		v.Replay = rp
+	} else {
+		v.Replay = os.Getenv("VERIF_REPLAY")
+	}
+	l, _ := json.Marshal(v)
+	_ = os.WriteFile(filepath.Join(out, fmt.Sprintf("viol-%d-%s.jsonl", shardNo(), r.Test)), append(l, '\n'), 0644)
 }
 
 // Flush writes the evidence fragment, known hits and the pending violation.
@@ -193,30 +241,8 @@ func (r *Recorder) Flush(t testing.TB) {
 			f.Close()
 		}
 	}
-	if r.pending != nil {
-		v := r.pending
-		rd := os.Getenv("VERIF_REPLAY_DIR")
-		if rd == "" {
-			rd = out
-		}
-		_ = os.MkdirAll(rd, 0755)
-		name := fmt.Sprintf("%s-%s-%s.json", v.Property, r.Test, hashOf(v.Case))
-		rp := filepath.Join(rd, name)
-		wrapped := map[string]interface{}{"property": v.Property, "test": r.Test, "signature": v.Signature,
-			"detail": v.Detail, "case": v.Case}
-		cb, _ := json.MarshalIndent(wrapped, "", " ")
-		if os.Getenv("VERIF_REPLAY") == "" {
-			_ = os.WriteFile(rp, cb, 0644)
-			v.Replay = rp
-		} else {
-			v.Replay = os.Getenv("VERIF_REPLAY")
-		}
-		f, err := os.OpenFile(filepath.Join(out, fmt.Sprintf("viol-%d-%s.jsonl", sh, r.Test)), os.O_CREATE|os.O_APPEND|os.O_WRONLY, 0644)
-		if err == nil {
-			l, _ := json.Marshal(v)
-			f.Write(append(l, '\n'))
-			f.Close()
-		}
+	if r.pending != nil && (os.Getenv("VERIF_NOSHRINK") == "" || r.tripped == "") {
+		r.writePending()
 	}
 }
 
